@@ -137,7 +137,8 @@ def _stress(prop, items, fn, same, rng, n_reentrant, thread_rounds, nthreads, la
             for idx, got, how in ((i, out, "interrupted (another call ran at event %d of %d)" % (k, total)), (j, inner, "nested (started inside another call)")):
                 d = compare(idx, got, how)
                 if d:
-                    H.violation(prop, "stress", "re-entrant use changes the result", dict(items[idx][0], stress="reentrant", partner=items[j if idx == i else i][0].get("id")), d)
+                    other = items[j if idx == i else i][0]
+                    H.violation(prop, "stress", "re-entrant use changes the result", dict(items[idx][0], stress="reentrant", partner=other.get("id"), partner_case=other), d)
                     break
     # (2) threads
     old_si = sys.getswitchinterval()
@@ -176,7 +177,7 @@ def _stress(prop, items, fn, same, rng, n_reentrant, thread_rounds, nthreads, la
         if i in seen:
             continue
         seen.add(i)
-        H.violation(prop, "stress", "concurrent use changes the result", dict(items[i][0], stress="threads"), d)
+        H.violation(prop, "stress", "concurrent use changes the result", dict(items[i][0], stress="threads", partner_case=items[(i + 1) % len(items)][0]), d)
 
 
 # ---- resource-starved calls ---------------------------------------------------------------------------------------------
